@@ -212,6 +212,19 @@ func hookRun(sc *hookScenario) (finds []hookFinding, undefined bool, slow bool) 
 				for i, g := range gotRR {
 					if !used[i] && bytes.Equal(g.Body, want) {
 						used[i], ok = true, true
+						// the re-request is addressed like the transfer's first packet
+						for _, f := range frames {
+							if f.Fragmented && f.ID == w.ID && f.No == 1 {
+								wantVer := 2
+								if f.V2019 {
+									wantVer = 3
+								}
+								if g.Phone != f.Phone || g.Version != wantVer {
+									add("timer", "re-request is not addressed with the phone / version of the transfer's first packet")
+								}
+								break
+							}
+						}
 						break
 					}
 				}
@@ -307,6 +320,10 @@ func hookFrame(v2019 bool, id, serial uint16, frag bool, sum, no uint16, body []
 		bcd = hookBCD19
 	}
 	return ref.Build(ref.Params{ID: id, V2019: v2019, VersionByt: 1, BCD: bcd, Serial: serial, Fragmented: frag, Sum: sum, No: no, Body: body})
+}
+
+func hookFrameV(v2019 bool, id, serial uint16, frag bool, sum, no uint16, body []byte) []byte {
+	return hookFrame(v2019, id, serial, frag, sum, no, body)
 }
 
 func hexAll(bs [][]byte) []string {
